@@ -134,6 +134,9 @@ func init() {
 							V: map[string]int{"later": later}, S: map[string]string{"cause": c, "mix": m}})
 					}
 				}
+				// the peer sent a frame the server cannot decode some time before the connection ends
+				ps = append(ps, Param{Name: fmt.Sprintf("%s-unary-later0-garbage", c), Bound: b,
+					V: map[string]int{"later": 0, "garbage": 1}, S: map[string]string{"cause": c, "mix": "unary"}})
 				// server pings on: the end event lands at a ping tick (a ping write may fail while
 				// handlers are still running)
 				ps = append(ps, Param{Name: fmt.Sprintf("%s-unary-later1-pings", c), Bound: b,
@@ -266,6 +269,13 @@ func connendBody(s *vsched.Sched, p Param) {
 				}
 			})
 		}
+	}
+	if p.I("garbage") == 1 {
+		s.Go("ygarbage", func() {
+			s.Env("end-go") // after the handlers have started, before the end event (sorts before "zend")
+			w.Net.Link(0).Inject(vnet.C2S, vnet.TextFrame([]byte(`{not json`), true))
+			w.Net.Link(0).Inject(vnet.C2S, vnet.TextFrame([]byte(`{"jsonrpc":"2.0","id":[1],"method":"T.Hold","params":[9]}`), true))
+		})
 	}
 	s.Go("zend", func() {
 		s.Env("end-go")
